@@ -13,7 +13,7 @@
 From Coq Require Import List NArith ZArith.
 From NV Require Import Cram.Bytes Cram.Itf8 Cram.Ltf8 Cram.Vlq Cram.IntProofs Cram.Rans4x8 Cram.Rans4x8Proofs
   Cram.Rans4x8Table Cram.Rans4x8O1 Cram.Rans4x8O1Proofs Cram.Rans4x8O1Table Cram.Rans4x8O1Full
-  Cram.Nx16Xform Cram.Nx16XformProofs.
+  Cram.Nx16Xform Cram.Nx16XformProofs Cram.Nx16O0 Cram.Nx16O0Proofs Cram.Nx16Full.
 Import ListNotations.
 Open Scope N_scope.
 
